@@ -66,8 +66,8 @@ const (
 )
 
 func init() {
-	vkit.Register("replica", vkit.N{Quick: 16000, Thorough: 270000}, genReplica, runCase)
-	vkit.Register("rule", vkit.N{Quick: 16000, Thorough: 270000}, genRule, runCase)
+	vkit.Register("replica", vkit.N{Quick: 13000, Thorough: 270000}, genReplica, runCase)
+	vkit.Register("rule", vkit.N{Quick: 13000, Thorough: 270000}, genRule, runCase)
 	vkit.Register("controller", vkit.N{Quick: 4000, Thorough: 60000}, genController, runCase)
 }
 
@@ -152,6 +152,20 @@ func genClusterOptions(t *rapid.T, c *simkit.ClusterSpec) {
 	c.MaxStoreDownTimeSec = simkit.Pick(t, []int{0, 0, 0, 600, 3600, 3 * 3600}, "maxStoreDownTime")
 	if pct(t, 15, "lowSpaceRatio") {
 		c.LowSpaceRatio = simkit.Pick(t, []float64{0.7, 0.9}, "lowSpaceRatioValue")
+	}
+	if pct(t, 10, "tightSpace") {
+		// a cluster that is running full: most stores sit around the low-space
+		// threshold and around the documented small-store exception (< 30 regions
+		// and more than 8 GiB of the 100 GiB still available)
+		for i := range c.Stores {
+			if s := &c.Stores[i]; pct(t, 75, "tightStore") {
+				s.AvailableRatio = simkit.Pick(t, []float64{0.31, 0.21, 0.19, 0.09, 0.07, 0.05, 0}, "tightAvail")
+				s.UsedRatio = 1 - s.AvailableRatio
+				s.RegionCount = simkit.Pick(t, []int{0, 29, 30, 100}, "tightRegions")
+				s.LeaderCount = 0
+				s.RegionSize, s.LeaderSize = int64(s.RegionCount)*10, 0
+			}
+		}
 	}
 }
 
